@@ -386,8 +386,10 @@ def sibling_cases(tier, seed):
     groups = list(itertools.combinations(subsets, 2))
     if tier == "thorough":
       groups += list(itertools.combinations(subsets, 3))
-    for gs in groups:
-      for rot in ((0, 3) if tier == "quick" else range(len(SIB_OPS))):
+    for gi, gs in enumerate(groups):
+      # quick: the chain as listed for every document, and started at the two-table batch for
+      # every third document (which third depends on the seed)
+      for rot in (((0, 3) if gi % 3 == seed % 3 else (0,)) if tier == "quick" else range(len(SIB_OPS))):
         yield {"pool": pi, "groupbys": [list(g) for g in gs], "ops": list(SIB_OPS[rot:] + SIB_OPS[:rot])}
 
 
@@ -658,7 +660,7 @@ def main():
                               "of every group-by column (to fresh ids, then one onto another ignoring case); "
                               "chain started at %s"
                               % (SIB_POOLS, "pair" if tier == "quick" else "pair and triple",
-                                 "op 0 and op 3" if tier == "quick" else "every op (5 rotations)"),
+                                 "op 0 (every document) and op 3 (every third document)" if tier == "quick" else "every op (5 rotations)"),
     "engine": "seed docs basic, refs, summary, c21_joined (two source tables with sibling summary tables "
               "whose encoded names coincide exactly / ignoring case); histories of 6 bundles: awkward "
               "AddTable / AddColumn / RenameColumn / RenameTable / metadata colId, label, tableId updates, "
@@ -695,7 +697,7 @@ def main():
 
   from vlib.rtc import explore
   explore.explore(rep, "checks.C21", "IdentMonitor", n_quick=32, n_thorough=4000,
-                  budget_quick_s=8, budget_thorough_s=300)
+                  budget_quick_s=6, budget_thorough_s=300)
   # directed histories (fixed; found by the thorough tier, kept so that every run re-examines them)
   directed = [("summary", [[["RenameColumn", "A_summary", "count", "CAT"]]]),
               ("summary", [[["RenameColumn", "A", "tags", "New Col"]],
